@@ -307,10 +307,10 @@ impl<B: StarkField> AirContext<B> {
         let trace_length = self.trace_len();
         let transition_divisior_degree = trace_length - self.num_transition_exemptions();
 
-        // we use the identity: ceil(a/b) = (a + b - 1)/b
+        // a polynomial of degree d has d + 1 coefficients; we use the identity:
+        // ceil((d + 1)/b) = (d + b)/b
         let num_constraint_col =
-            (highest_constraint_degree - transition_divisior_degree + trace_length - 1)
-                / trace_length;
+            (highest_constraint_degree - transition_divisior_degree + trace_length) / trace_length;
 
         cmp::max(num_constraint_col, 1)
     }
